@@ -1,0 +1,31 @@
+//go:build verif
+
+package rtmp
+
+import "io"
+
+// Verification hooks (build tag verif, add-only): the command writers of MessagePacker and the
+// geometry of its Buffer are unexported; the harness of /verif calls them directly (property C17).
+
+func (packer *MessagePacker) VerifWriteConnect(w io.Writer, appName, tcUrl string, isPush bool) error {
+	return packer.writeConnect(w, appName, tcUrl, isPush)
+}
+
+func (packer *MessagePacker) VerifWritePlay(w io.Writer, streamName string, streamid int) error {
+	return packer.writePlay(w, streamName, streamid)
+}
+
+func (packer *MessagePacker) VerifWritePublish(w io.Writer, appName, streamName string, streamid int) error {
+	return packer.writePublish(w, appName, streamName, streamid)
+}
+
+// VerifGrow calls grow(n) and reports capacity, read and write position afterwards.
+func (b *Buffer) VerifGrow(n int) (capacity, readPos, writePos int) {
+	b.grow(n)
+	return cap(b.core), b.readPos, b.writePos
+}
+
+// VerifGeometry reports capacity, read and write position.
+func (b *Buffer) VerifGeometry() (capacity, readPos, writePos int) {
+	return cap(b.core), b.readPos, b.writePos
+}
